@@ -36,6 +36,8 @@ type c05Case struct {
 	Procs      int    `json:"procs"`
 	ReadHeavy  bool   `json:"read_heavy,omitempty"` // client 0 writes, all others only read the same hot keys
 	BigVals    int    `json:"big_vals,omitempty"`   // values are an 8-byte token repeated this many times (the history records the token)
+	FewVals    bool   `json:"few_vals,omitempty"`   // every Put writes one of three values: the same bytes are put again and again
+	Partial    bool   `json:"partial,omitempty"`    // a big oldest table that the size limit keeps out of every compaction run (tombstones must be kept)
 	// observations
 	History   []lOp  `json:"history,omitempty"`
 	NOps      int    `json:"n_ops"`
@@ -109,12 +111,34 @@ func (c *c05Case) Exec() {
 	} else {
 		opts = append(opts, simpledb.DisableCompactions())
 	}
+	if c.Partial {
+		opts = append(opts, simpledb.CompactionMaxSizeBytes(4000), simpledb.CompactionRatio(1))
+	}
 	db, err := simpledb.NewSimpleDB(dir, opts...)
 	must(err)
 	must(db.Open())
+	if c.Partial {
+		// every key gets an initial value in one big, incompressible table (not part of the history: the model starts
+		// from "all keys hold init")
+		junk := make([]byte, 6000)
+		rand.New(rand.NewSource(c.Seed)).Read(junk)
+		must(db.PutBytes([]byte("zz-junk"), junk))
+		for k := 0; k < c.Keys; k++ {
+			must(db.Put(fmt.Sprintf("k%d", k), "init"))
+		}
+		must(db.VerifForceRotation())
+		db.VerifWaitFlusherIdle()
+	}
 	t0 := time.Now()
 	var mu sync.Mutex
 	var hist []lOp
+	if c.Partial {
+		// the initial puts are the first operations of the history, each finished before the next began
+		for k := 0; k < c.Keys; k++ {
+			hist = append(hist, lOp{Client: 99, Kind: 1, Key: fmt.Sprintf("k%d", k), Val: "init", Call: int64(2*k + 1), Ret: int64(2*k + 2)})
+		}
+		t0 = t0.Add(-time.Duration(2*c.Keys + 10))
+	}
 	var wg sync.WaitGroup
 	stop := make(chan struct{})
 	// driver: rotations and synchronous compaction cycles at random moments
@@ -201,6 +225,9 @@ func (c *c05Case) Exec() {
 				case x < 8:
 					op.Kind = 1
 					op.Val = fmt.Sprintf("c%d-%d", cl, i)
+					if c.FewVals {
+						op.Val = []string{"A", "B", "C"}[r.Intn(3)]
+					}
 					payload := op.Val
 					if c.BigVals > 0 {
 						op.Val = fmt.Sprintf("c%d-%05d", cl, i%100000)[:8]
@@ -292,6 +319,15 @@ func genC05(r *rand.Rand, tier string) []Case {
 			// big values that stay in the write memstore: an overwrite must not be visible in a value that a Get
 			// is still copying out
 			c.ReadHeavy, c.Memstore, c.Keys, c.OpsPer, c.BigVals, c.Background, c.Clients = true, 1<<30, 2, 100+r.Intn(50), 1<<15, false, 6+r.Intn(2)
+		}
+		if i%6 == 5 && !c.ReadHeavy && c.BigVals == 0 {
+			// a big oldest table stays out of every compaction run: deletes live on as kept tombstones in merged tables
+			c.Partial, c.Memstore, c.Background = true, []uint64{50, 300}[r.Intn(2)], i%12 == 5
+		}
+		if i%6 == 2 && !c.ReadHeavy {
+			// the same few values are put again and again while rotations go on (a re-put of bytes that an older
+			// generation still holds is a write like any other); few keys so that they collide
+			c.FewVals, c.Keys, c.Memstore = true, 2+r.Intn(2), []uint64{50, 300}[r.Intn(2)]
 		}
 		cases = append(cases, c)
 	}
